@@ -461,7 +461,9 @@ pub fn check_c05_record(v: &View, rcx: &RecCtx, out: &mut Vec<Violation>) {
 pub fn check_view(v: &View, rcx: &RecCtx, out: &mut Vec<Violation>) {
     check_c09_record(v, rcx.origin, out);
     check_c14(v, out);
-    check_c10(v, rcx, out);
+    if rcx.in_scope {
+        check_c10(v, rcx, out);
+    }
     check_c05_record(v, rcx, out);
     check_c04_c12(v, rcx, out);
     if !v.eq_self {
